@@ -38,6 +38,7 @@ type sdocument struct {
 	sels  []*snode
 	text  string
 	tkeys map[string]bool
+	head  string // what precedes the operation's selection set ("" for a query, "subscription")
 }
 
 type sdocGen struct {
@@ -109,6 +110,35 @@ func (g *sdocGen) selset(parent string, depth int) []*snode {
 			}
 		}
 	}
+	// equal response keys: a field of this selection set selected once more under the same key, in
+	// the same scope and without arguments (the merging rule lets that pass): a leaf is resolved
+	// once, the selection sets of a composite field are merged
+	if g.r.Chance(1, 4) {
+		var fields []*snode
+		for _, n := range out {
+			if n.kind == 'f' && n.name != "nofield" {
+				fields = append(fields, n)
+			}
+		}
+		if len(fields) > 0 {
+			orig := rng.Pick(g.r, fields)
+			dup := &snode{kind: 'f', key: orig.key, name: orig.name}
+			if len(orig.sub) > 0 {
+				var ft string
+				for _, f := range pt.Fields {
+					if f.Name == orig.name {
+						ft = f.Type.Name
+					}
+				}
+				dup.sub = g.selset(ft, depth+1)
+			}
+			if g.r.Chance(1, 3) {
+				out = append(out, &snode{kind: 'i', sub: []*snode{dup}})
+			} else {
+				out = append(out, dup)
+			}
+		}
+	}
 	return out
 }
 
@@ -159,7 +189,11 @@ func (doc *sdocument) render() {
 			}
 		}
 	}
-	emit("{")
+	if doc.head != "" {
+		emit(doc.head + " {")
+	} else {
+		emit("{")
+	}
 	sels(doc.sels)
 	emit("}")
 	for _, f := range doc.frags {
@@ -230,4 +264,26 @@ func (o *observation) tree(tkeys map[string]bool) sexp.Node {
 		return sexp.T("tree", sexp.Sym("no-data"))
 	}
 	return sexp.T("tree", treeSexp(*o.data, tkeys, ""))
+}
+
+// hand-written subscriptions over the apifu schema with subscriptions (apifu.go): the two fields
+// tick (ungated) and betaTick (gated by fa), with fragments
+func subscriptionDocs() []*sdocument {
+	fld := func(key, name string, sub ...*snode) *snode { return &snode{kind: 'f', key: key, name: name, sub: sub} }
+	tn := func(key string) *snode { return &snode{kind: 't', key: key} }
+	inl := func(tc string, sub ...*snode) *snode { return &snode{kind: 'i', tc: tc, sub: sub} }
+	spr := func(name string) *snode { return &snode{kind: 's', name: name} }
+	docs := []*sdocument{
+		{sels: []*snode{fld("a", "tick", fld("b", "id"), fld("c", "n"))}},
+		{sels: []*snode{fld("a", "betaTick", fld("b", "id"))}},
+		{sels: []*snode{fld("a", "tick", tn("t"), inl("Thing", fld("b", "n")), inl("Node", fld("c", "id")))}},
+		{sels: []*snode{fld("a", "betaTick", spr("T"))}, frags: []*sfrag{{name: "T", tc: "Thing", sels: []*snode{fld("b", "id"), fld("c", "n")}}}},
+		{sels: []*snode{inl("Subscription", fld("a", "betaTick", fld("b", "n")))}},
+	}
+	for _, d := range docs {
+		d.head = "subscription"
+		d.tkeys = map[string]bool{}
+		d.render()
+	}
+	return docs
 }
